@@ -19,7 +19,8 @@ CLASS_LAYER = [PA + 'Pauli.__matmul__#Pauli', PA + 'Pauli.__neg__', PA + 'Pauli.
                ST + 'StabilizerState.expect#state', ST + 'CliffordMap.inverse', ST + 'clifford_rotation_map', ST + 'zero_state', ST + 'one_state', ST + 'maximally_mixed_state', ST + 'StabilizerState.entropy#mask', ST + 'StabilizerState.entropy#qubits', ST + 'StabilizerState.get_prob', ST + 'CliffordMap.embed', PA + 'PauliMonomial.__neg__', PA + 'PauliMonomial.__rmul__', PA + 'PauliMonomial.copy', PA + 'PauliMonomial.as_polynomial', PA + 'PauliPolynomial.__neg__', PA + 'PauliPolynomial.__rmul__', PA + 'PauliPolynomial.copy', ST + 'random_pauli_map', 'pyclifford/circuit.py::clifford_rotation_gate#noqubits', 'pyclifford/circuit.py::CliffordGate.compile#generator', 'pyclifford/circuit.py::CliffordGate.independent_from', 'pyclifford/circuit.py::CliffordLayer.independent_from', 'pyclifford/circuit.py::MeasureLayer.obs_gs_ps', 'pyclifford/circuit.py::H#1', 'pyclifford/circuit.py::S#1', 'pyclifford/circuit.py::X#1', 'pyclifford/circuit.py::Y#1', 'pyclifford/circuit.py::Z#1', 'pyclifford/circuit.py::CNOT#2', PA + 'PauliList.__getitem__#int', PA + 'Pauli.rotate_by#nomask', PA + 'Pauli.transform_by#nomask', 'pyclifford/circuit.py::MeasureLayer.forward', PA + 'PauliList.__neg__', PA + 'PauliList.rotate_by#state', PA + 'PauliList.transform_by#state', PA + 'PauliPolynomial.__matmul__#poly', PA + 'Pauli.__matmul__#Monomial',
                'pyclifford/circuit.py::CliffordGate.forward#generator_global', 'pyclifford/circuit.py::CliffordGate.backward#generator_global',
                'pyclifford/circuit.py::CliffordGate.forward#map_global'] + GATES[3:] + LOCAL_GATES + LOCAL_STATE + \
-              [PA + '%s.__rmul__#%s' % (c, t) for c in ('Pauli', 'PauliList') for t in ('1', 'i', 'm1', 'mi')]
+              [PA + '%s.__rmul__#%s' % (c, t) for c in ('Pauli', 'PauliList') for t in ('1', 'i', 'm1', 'mi')] + \
+              [PA + 'pauli#codes', PA + 'pauli#chars', PA + 'pauli#str']
 
 # every kernel that currently has a discharged contract (their frame.* obligations are the C17 frame conditions)
 MEASURE_LEMMAS = ['ordp_parity', 'xzpartial_full', 'selacq_map', 'selacq_image', 'partnersum_acq', 'transform_preserves_acq', 'acq_diff2', 'onsite_flat', 'acq_bilinear', 'acq_antisym', 'ipow_parity', 'ordg_bits', 'acq_zero', 'ordg_acq', 'selacq_gram', 'acqsum_ext',
@@ -231,10 +232,14 @@ def C19(run):
 
 
 def C20(run):
-    run.deductive(keys=[U + 'pauli_tokenize', PA + 'Pauli.__neg__', PA + 'PauliList.__neg__', PA + 'PauliList.__getitem__#int'] +
-                  [PA + '%s.__rmul__#%s' % (c, t) for c in ('Pauli', 'PauliList') for t in ('1', 'i', 'm1', 'mi')], lemmas=[])
+    run.deductive(keys=[U + 'pauli_tokenize', PA + 'pauli#codes', PA + 'pauli#chars', PA + 'pauli#str',
+                        PA + 'Pauli.__neg__', PA + 'PauliList.__neg__', PA + 'PauliList.__getitem__#int'] +
+                  [PA + '%s.__rmul__#%s' % (c, t) for c in ('Pauli', 'PauliList') for t in ('1', 'i', 'm1', 'mi')],
+                  lemmas=['toks_range', 'toks_mono', 'toks_range_c', 'toks_mono_c', 'tokens_no_prefix', 'tokens_roundtrip', 'chars_codes_agree'])
     run.bounded_check('c20_formats', _b().c20_formats, Nmax=q(run, 3, 5))
-    return 'other', ('deductive (all N, L): pauli_tokenize produces exactly the documented token codes, selection by integer, negation and the four unit multiples are the documented list / phase arithmetic; bounded and exhaustive per N: all '
+    return 'other', ('deductive (all N, L): pauli_tokenize produces exactly the documented token codes; the parser pauli() on code arrays, lists of letters and strings of ANY length puts the operator symbols on the qubits in order, '
+                     'skips prefix symbols and returns the phase they describe (loop invariant over the prefix counter h); lemmas: parsing a token row returns the tokenized string and phase, a string and the code array spelling the same symbols '
+                     'describe the same operator; selection by integer, negation and the four unit multiples are the documented list / phase arithmetic; bounded and exhaustive per N: dictionaries, printing, all '
                      'strings x phases x accepted formats, print/parse and tokenize/parse round trips, indexing, negation, unit multiples')
 
 
@@ -260,5 +265,5 @@ TECHNIQUE = {
     'C17': 'deductive frame conditions (modifies clauses, freshness of results) of every function under contract (z3); bounded snapshot checks for copies and queries of the class layer',
     'C18': 'deductive contracts (z3): front / pauli_is_onsite / pauli_diagonalize1 / pauli_diagonalize2 / condense / clifford_rotation_gate (gate of G = rotation by G); bounded exhaustive diagonalisation check, SBRG',
     'C19': 'deductive contract on pauli_combine (sampled rows are ordered products); bounded membership / expansion / shadow checks',
-    'C20': 'deductive contracts on pauli_tokenize, unit multiplication, negation, integer selection (z3); exhaustive parse / print round trips per N',
+    'C20': 'deductive contracts (z3): pauli_tokenize, the parser pauli() on code arrays / letter lists / strings (loop invariant, all lengths), tokenize-then-parse and string-vs-codes lemmas, unit multiplication, negation, integer selection; exhaustive parse / print round trips per N for dictionaries and printing',
 }
